@@ -63,6 +63,44 @@ def _cvc5_check(smt2, timeout_ms, logic_opts=()):
         os.unlink(path)
 
 
+def purify(exprs):
+    """Replace applications of uninterpreted functions by fresh constants (one
+    per syntactically distinct application, innermost first).  Sound for
+    validity: a formula valid with the applications read as free variables is
+    valid for every interpretation of the functions."""
+    cache = {}
+    memo = {}
+
+    def walk(e):
+        key = e.get_id()
+        if key in memo:
+            return memo[key]
+        if z3.is_quantifier(e) or z3.is_var(e):
+            memo[key] = e
+            return e
+        if not z3.is_app(e):
+            memo[key] = e
+            return e
+        args = [walk(a) for a in e.children()]
+        d = e.decl()
+        if d.kind() == z3.Z3_OP_UNINTERPRETED and d.arity() > 0:
+            app = d(*args)
+            k = app.sexpr()
+            if k not in cache:
+                cache[k] = z3.Const("uf!%d!%s" % (len(cache), d.name()), e.sort())
+            r = cache[k]
+        elif args:
+            try:
+                r = d(*args)
+            except Exception:
+                r = e
+        else:
+            r = e
+        memo[key] = r
+        return r
+    return [walk(e) for e in exprs], cache
+
+
 def solve(assumptions, goal, timeout_ms=None, use_cvc5=True, nl=False):
     """Decide whether `assumptions => goal` is valid.
 
@@ -71,6 +109,21 @@ def solve(assumptions, goal, timeout_ms=None, use_cvc5=True, nl=False):
     """
     timeout_ms = timeout_ms or Z3_TIMEOUT_MS
     t0 = time.time()
+    if nl and not any(z3.is_quantifier(a) for a in assumptions):
+        # polynomial identities around special functions: decide the purified
+        # (function applications as free reals) problem with nlsat first
+        try:
+            pur, _ = purify(list(assumptions) + [goal])
+            t = z3.Tactic("qfnra-nlsat")
+            sp = t.solver()
+            sp.set("timeout", timeout_ms)
+            for a in pur[:-1]:
+                sp.add(a)
+            sp.add(z3.Not(pur[-1]))
+            if sp.check() == z3.unsat:
+                return "unsat", None, "z3-nlsat(purified)", time.time() - t0
+        except z3.Z3Exception:
+            pass
     s = z3.Solver()
     s.set("timeout", timeout_ms)
     for a in assumptions:
@@ -128,6 +181,8 @@ def model_to_dict(model):
 
 def z3val(model, e, default=0):
     """Evaluate z3 expression `e` in `model` to a Python number/bool."""
+    if model is None:
+        return default
     v = model.eval(e, model_completion=True)
     if z3.is_true(v):
         return True
@@ -215,7 +270,7 @@ class Registry(object):
     # -- deciding ----------------------------------------------------------
     def prove(self, oid, assumptions, goal, function=None, engine="pyvc",
               kind="proof", bound=None, replay=None, nl=False, timeout_ms=None,
-              describe=None):
+              describe=None, poly=None):
         """Discharge `assumptions => goal`.
 
         replay: callable(model) -> (reproduced: bool, info: dict) running the
@@ -226,6 +281,42 @@ class Registry(object):
         o.instances += 1
         if isinstance(goal, bool):
             goal = z3.BoolVal(goal)
+        if poly is not None:
+            # polynomial identity modulo sin^2+cos^2=1 (complete normal form)
+            from . import polynf
+            t0 = time.time()
+            pst, wit = polynf.decide(goal, poly)
+            dt = time.time() - t0
+            if pst == "unsat":
+                o.backends.add("polynf")
+                o.seconds += dt
+                self.solver_seconds += dt
+                o.merge("discharged")
+                if len(self.samples) < 6:
+                    self.samples.append({"obligation": oid, "status": "discharged",
+                                         "backend": "polynomial normal form", "seconds": round(dt, 4),
+                                         "goal": _short(goal)})
+                return True
+            if pst == "sat":
+                info = {"obligation": oid, "witness": wit, "goal": _short(goal, 2000),
+                        "backend": "polynf: normal forms differ; numeric witness found"}
+                o.backends.add("polynf")
+                if replay is None:
+                    info["replay"] = "no-adapter"
+                    self._violation(o, info, reproduced=None)
+                    return False
+                try:
+                    reproduced, rinfo = replay(None)
+                except Exception:
+                    reproduced, rinfo = False, {"replay_error": traceback.format_exc()}
+                info["replay"] = rinfo
+                if reproduced:
+                    self._violation(o, info, reproduced=True)
+                else:
+                    o.merge("undecided")
+                    o.detail = {"reason": "polynomial identity fails but the real code did not "
+                                          "reproduce a difference", "info": info}
+                return False
         status, model, backend, dt = solve(assumptions, goal, nl=nl, timeout_ms=timeout_ms)
         o.backends.add(backend)
         o.seconds += dt
